@@ -54,7 +54,7 @@ def random_orth(rng, k):
     return Q * np.sign(np.diag(R))
 
 
-def apply_symmetries(Y, n, rng, rotate=True, gauge=True, pad=False, scale_pow=0, order=None, core_shifts=None):
+def apply_symmetries(Y, n, rng, rotate=True, gauge=True, pad=False, scale_pow=0, order=None, core_shifts=None, same_rot=False):
     """Mode rotations (orthogonal), gauge matrices between cores, power-of-two
     scaling, optional rank padding (+Z -Z).  Returns (Y', rotations)."""
     d = len(Y)
@@ -67,6 +67,8 @@ def apply_symmetries(Y, n, rng, rotate=True, gauge=True, pad=False, scale_pow=0,
     Qs = []
     for k in range(d):
         Q = random_orth(rng, n[k]) if rotate else np.eye(n[k])
+        if same_rot and k > 0 and n[k] == n[0]:
+            Q = Qs[0]               # the same rotation on every mode keeps a symmetric unfolding symmetric
         Qs.append(Q)
         Y[k] = np.einsum('aib,ji->ajb', Y[k], Q)
     if gauge:
